@@ -57,7 +57,7 @@ func RunScenario(t *testing.T, sc *Scenario) *RunResult {
 			keys = append(keys, k)
 		}
 		sort.Strings(keys)
-		res.Signature = fmt.Sprintf("%d:%s", out.CacheLen, strings.Join(keys, ","))
+		res.Signature = fmt.Sprintf("%d games:%s", len(sc.Book.Games), strings.Join(keys, ","))
 		if len(res.Signature) > 200 {
 			h := fnv.New64a()
 			h.Write([]byte(res.Signature))
